@@ -347,11 +347,12 @@ def handle (args : List String) : String :=
   | "run" :: input :: items =>
     match fromHex input, pItems 10000 items with
     | some inp, some its =>
-      let e := runProgram false false its inp
-      let v := runProgram false true its inp
-      let eb := runProgram true false its inp
-      let exact := showRun e == showRun eb
-      s!"{showRun e} {showRun v} {if exact then "exact" else "inexact"}"
+      -- always the bounded semantics: arithmetic fails once a magnitude reaches 2^53, so values stay small (an unbounded
+      -- run of `x *= x` in a loop would build astronomically large integers). An `error` outcome may therefore be a real
+      -- runtime error or the bound; the harness compares it only with an error of the real interpreter.
+      let e := runProgram true false its inp
+      let v := runProgram true true its inp
+      s!"{showRun e} {showRun v} exact"
     | _, _ => "unsupported"
   | _ => "bad-request"
 
